@@ -616,6 +616,40 @@ def rand_case(arg):
     return ev
 
 
+
+
+class _CachedRes(object):
+    """stand-in for a TLCResult restored from VERIF_CASE_CACHE (mutation runs re-use the repo-independent TLC output)"""
+
+    def __init__(self, d):
+        self.d = d
+        self.distinct = d["distinct_states"]
+        self.generated = d["states_generated"]
+
+    def summary(self):
+        return dict(self.d, cached=True)
+
+
+def cached_tlc(ctx, name, label, consts, producer):
+    """producer() -> (TLCResult, cases).  With VERIF_CASE_CACHE=<dir> the (repo-independent) result is stored / re-used."""
+    import json
+
+    d = os.environ.get("VERIF_CASE_CACHE")
+    path = os.path.join(d, "%s_%s_%d.json" % (name, ctx.tier, ctx.seed)) if d else None
+    if path and os.path.exists(path):
+        with open(path) as f:
+            blob = json.load(f)
+        ctx.add_tlc(_CachedRes(blob["summary"]), label, consts)
+        return blob["cases"]
+    res, cases = producer()
+    ctx.add_tlc(res, label, consts)
+    if path:
+        with open(path + ".tmp", "w") as f:
+            json.dump({"summary": res.summary(), "cases": cases}, f)
+        os.replace(path + ".tmp", path)
+    return cases
+
+
 # ------------------------------------------------------------------------------------------------
 def _slim(ev):
     """event as sent to TLC (drop harness-only keys)"""
@@ -734,22 +768,30 @@ def run(ctx):
 
     phases = {}
     t0 = time.time()
-    res = tlc.run("Autofill", cfg_run, dump=True, timeout=ctx.pick(900, 2400))
-    ctx.add_tlc(res, "exhaustive", consts)
-    phases["tlc_exhaustive_s"] = round(time.time() - t0, 1)
-    t0 = time.time()
-    cases = load_cases(res.dump_path)
-    phases["parse_dump_s"] = round(time.time() - t0, 1)
+
+    def produce():
+        res = tlc.run("Autofill", cfg_run, dump=True, timeout=ctx.pick(900, 2400))
+        return res, load_cases(res.dump_path)
+
+    cases = cached_tlc(ctx, "c07_exhaustive", "exhaustive", consts, produce)
+    phases["tlc_exhaustive_and_parse_s"] = round(time.time() - t0, 1)
     if not ctx.quick:
-        simcfg = cfg.replace("MaxUnits = 3", "MaxUnits = 6").replace("MaxSeqs = 2", "MaxSeqs = 3").replace("Cross = FALSE", "Cross = TRUE")
-        sim = tlc.run("Autofill", simcfg, simulate=1500, depth=30, seed=ctx.seed, workers=1, timeout=1800)
-        for p in sorted(glob.glob(os.path.join(sim.sim_dir, "tr*"))):
-            sts = list(tlaval.iter_dump(p))
-            if sts:
-                st = tlaval.to_jsonable(sts[-1])
-                seqs = [[_norm_unit(u) for u in s] for s in closed_description(st)]
-                if seqs:
-                    cases.append({"seqs": seqs, "exp": [list(s) for s in st["exp"]]})
+        simconsts = {"MaxUnits": 6, "MaxSeqs": 3, "Cross": True, "simulate": 1500, "depth": 30}
+
+        def produce_sim():
+            simcfg = cfg.replace("MaxUnits = 3", "MaxUnits = 6").replace("MaxSeqs = 2", "MaxSeqs = 3").replace("Cross = FALSE", "Cross = TRUE")
+            sim = tlc.run("Autofill", simcfg, simulate=1500, depth=30, seed=ctx.seed, workers=1, timeout=1800)
+            out = []
+            for p in sorted(glob.glob(os.path.join(sim.sim_dir, "tr*"))):
+                sts = list(tlaval.iter_dump(p))
+                if sts:
+                    st = tlaval.to_jsonable(sts[-1])
+                    seqs = [[_norm_unit(u) for u in s] for s in closed_description(st)]
+                    if seqs:
+                        out.append({"seqs": seqs, "exp": [list(s) for s in st["exp"]]})
+            return sim, out
+
+        cases = cases + cached_tlc(ctx, "c07_simulate", "random walks (full cross alphabet)", simconsts, produce_sim)
     if len(cases) < 500:
         raise RuntimeError("vacuous: only %d descriptions from TLC" % len(cases))
     jobs = [(i + 1, c["seqs"]) for i, c in enumerate(cases)]
